@@ -149,6 +149,8 @@ DPLACES = {"default": "", "dir": '#[ts(export_to = "sub/")]', "file": '#[ts(expo
            # export_to given by an expression (a constant, a function call) instead of a literal
            # the TypeScript name given by an expression (not a literal): the file is named after it
            "renamed_expr": '#[ts(rename = concat!("Ren", "D§"))]', "renamed_expr_dir": '#[ts(rename = concat!("Ren", "D§"), export_to = "sub/")]',
+           # file form without an extension (used by C11 only: written verbatim, no import can name it)
+           "file_noext": '#[ts(export_to = "custom/noext§")]', "file_other_ext": '#[ts(export_to = "custom/d§.d.mts")]',
            "expr_dir": "#[ts(export_to = EXPR_DIR)]", "expr_file": '#[ts(export_to = expr_file("D§"))]'}
 # what the expressions above evaluate to (the constant / function are in the corpus' extra prelude)
 EXPR_PLACES = {"expr_dir": "viaexpr/", "expr_file": "viaexpr/file_D§.ts"}
@@ -211,12 +213,13 @@ def snapshot(root):
 PRE_EXISTING = {"out/notes.txt": "kept\n", "out/sub/keep.me": "kept too\n", "unrelated/Other.ts": "export type Unrelated = 1;\n"}
 
 
-def export_cases(tier, esm, stats, sandbox, twice=False):
+def export_cases(tier, esm, stats, sandbox, twice=False, extra_dplaces=()):
     """PREDICT the cases with Graphs.tla, build them, export every root into a fresh directory that
     holds a few unrelated files.  -> (units, observations, {unit: result}, {unit: tree before})"""
     cfgp = os.path.join(vlib.TMP, "graphs-cfg.json")
     q = tier == "quick"
-    dplaces = list(DPLACES) if not q else ["default", "dir", "file", "escape", "same_as_root", "same_dotdot", "expr_dir", "expr_file", "renamed_expr", "renamed_expr_dir"]
+    dplaces = [x for x in DPLACES if x not in ("file_noext", "file_other_ext")] if not q else ["default", "dir", "file", "escape", "same_as_root", "same_dotdot", "expr_dir", "expr_file", "renamed_expr", "renamed_expr_dir"]
+    dplaces = dplaces + [x for x in extra_dplaces if x not in dplaces]
     rplaces = list(RPLACES) if not q else ["default", "nested_file", "escape"]
     dirs = list(DIRS) if not q else ["relative", "absolute"]
     json.dump({"edges": list(EDGES), "dplaces": dplaces, "rplaces": rplaces, "dirs": dirs, "placed": PLACED if not q else PLACED[:4]}, open(cfgp, "w"))
